@@ -82,6 +82,24 @@ func init() {
 					if ifs.Init != nil {
 						condParts = append(condParts, ifs.Init)
 					}
+					// booleans of the condition that are defined elsewhere in the function (tagIsPending := !tag.Uncertain.IsZero())
+					ast.Inspect(ifs.Cond, func(y ast.Node) bool {
+						if id, ok := y.(*ast.Ident); ok {
+							if o := info.Uses[id]; o != nil {
+								inspectShallow(f.Body(), func(z ast.Node) bool {
+									if as, ok := z.(*ast.AssignStmt); ok && len(as.Lhs) == len(as.Rhs) {
+										for i, l := range as.Lhs {
+											if identObj(info, l) == o {
+												condParts = append(condParts, as.Rhs[i])
+											}
+										}
+									}
+									return true
+								})
+							}
+						}
+						return true
+					})
 					for _, part := range condParts {
 						ast.Inspect(part, func(y ast.Node) bool {
 							if c, ok := y.(*ast.CallExpr); ok {
